@@ -130,7 +130,7 @@ def check1d(case):
     amp = sim.amplification(mk, fA, qsc, case["cfl"], case["nsteps"], directives)
     if not amp <= 1e3:
         raise Skip("unstable configuration (round-off amplified > 1e3)")
-    tol = (1e-7 if implicit else 1e-12 * case["nsteps"]) * max(1.0, amp)
+    tol = (1e-6 if implicit else 1e-12 * case["nsteps"]) * max(1.0, amp)      # implicit: noise of the finite-difference Jacobian (~1e-8 relative) x CFL x steps
     for i in range(len(qA)):
         e = float(np.max(np.abs(np.roll(gA.data[i], k) - gB.data[i]))) / qsc[i]
         require(e <= tol, "solve-shift", "variable %d: stepping roll(q0,%d) %d times differs from roll of the unshifted run by %.3g (relative; tol %.3g; %s, cfl=%g, %s/%s, %s, n=%d)"
